@@ -673,6 +673,70 @@ def rule_listdelim(ctx, rep, rid="R-C10-listdelim"):
         r.note("no delimiter is written inside a loop today (zero expected; positive example: seeded/C10-K)")
 
 
+def rule_restructure(ctx, rep, rid="R-C10-restructure"):
+    """The renderer writes the node it is given.  A writer for node type T that looks into a *nested* T (reads the fields of a T it reached
+    through a child list) and writes it as part of the outer node changes the shape: `ELSE IF .. END_IF; END_IF` written as `ELSIF ..
+    END_IF` is accepted, stable under re-rendering, and parses to a different tree."""
+    r = rep.rule(rid, "a writer that is given a node of type T reads the fields of that node only, not of another T nested below it (no merging of a nested node into its parent)",
+                 floor=20, floor_what="writers with a node parameter")
+    n = 0
+    for b in sorted(ctx.prog.bodies.values(), key=lambda x: x.id):
+        im = b.f.get("impl") or {}
+        if b.f["crate"] != "ironplc_plc2plc" or "::test" in norm(b.id) or b.f["dk"] == "Closure" or b.f["argc"] < 2:
+            continue
+        if not (im.get("self") == R or R in norm(b.id)):
+            continue
+        # the node parameter: the last parameter whose type is a reference to a DSL type
+        nodep = None
+        for l in range(b.f["argc"], 0, -1):
+            m = re.match(r"&(?:'\w+ )?(ironplc_dsl::[A-Za-z_:]+)$", re.sub(r"'\{erased\} ", "", b.f["locals"][l][0]))
+            if m:
+                nodep = (l, m.group(1))
+                break
+        if nodep is None or ctx.facts.adts.get(nodep[1], {}).get("kind") != "struct":
+            continue
+        n += 1
+        l, T = nodep
+        foreign = set()
+        for _, kind, pl in b.place_uses():
+            if kind == "write":
+                continue
+            rt = b.root(pl)
+            fs = [x for x in rt[1] if isinstance(x, list) and x[0] == "f"]
+            if fs and any(x[3] == T for x in fs) and rt[0] != l:
+                foreign |= {x[2] for x in fs if x[3] == T}
+        # ... or hands a nested T straight to a writer that takes a T (itself, or the visit method for T): the text that the enclosing
+        # variant would put around the nested node (`IF` .. `END_IF`) is skipped
+        passes = []
+        for c in b.calls():
+            tg = ctx.prog.get(c.callee) if c.callee else []
+            if not tg or tg[0].f["crate"] != "ironplc_plc2plc" or len(c.args) < 2:
+                continue
+            tb = tg[0]
+            want = None
+            for l2 in range(tb.f["argc"], 0, -1):
+                m2 = re.match(r"&(?:'\w+ )?(ironplc_dsl::[A-Za-z_:]+)$", re.sub(r"'\{erased\} ", "", tb.f["locals"][l2][0]))
+                if m2:
+                    want = (l2, m2.group(1))
+                    break
+            if not want or want[1] != T or want[0] - 1 >= len(c.args):
+                continue
+            ap = op_place(c.args[want[0] - 1])
+            art = b.root(ap) if ap is not None else None
+            if art is not None and not (art[0] == l and not [x for x in art[1] if x != "*"]):
+                passes.append(norm(tb.id).split("::")[-1])
+        inst = "%s|%s" % (norm(b.id).split("::")[-1], T.split("::")[-1])
+        where = "%s:%d" % (b.f["file"], b.f["line"])
+        if passes:
+            r.finding(inst + "|writes a nested %s in place" % T.split("::")[-1], where, "the writer for %s passes another %s (one nested below its own node) directly to %s: the nested node is written "
+                      "without the text its enclosing kind puts around it, which the parser reads back as part of the outer node" % (T.split("::")[-1], T.split("::")[-1], ", ".join(sorted(set(passes)))))
+        elif foreign:
+            r.finding(inst + "|reads a nested %s" % T.split("::")[-1], where, "the writer for %s reads the fields %s of another %s than the one it was given: a nested node is written as part of "
+                      "its parent, which the parser reads back as a different tree" % (T.split("::")[-1], ", ".join(sorted(foreign)), T.split("::")[-1]))
+        else:
+            r.ok(inst, where)
+
+
 def rule_intwidth(ctx, rep, rid="R-C10-intwidth"):
     """The renderer writes every integer in decimal, whatever base it was read in.  The rendered text is accepted only if the decimal
     reader accepts every value the based readers (16#, 8#, 2#) can produce: all readers of `Integer` parse into the same integer type."""
@@ -758,6 +822,7 @@ def run(ctx, rep):
     rule_durprec(ctx, rep)
     rule_listdelim(ctx, rep)
     rule_intwidth(ctx, rep)
+    rule_restructure(ctx, rep)
     # the renderer never parenthesises a unary expression: that is only right while the grammar binds unary operators tightest
     from rules.c01 import rule_prec
     rule_prec(ctx, rep, ctx.peg, rid="R-C10-prec")
